@@ -177,6 +177,44 @@ CLAIMED = {
              '22 compiled forms per quick run, 130 thorough.',
         technique='TLA+ grammar state machine + exact denotational semantics in TLA+ (VFormAbs over a polynomial ring with rational coefficients) evaluated by TLC; real compile-and-assemble of every generated form compared entrywise',
         design_ref='3 C01'),
+    'C08': dict(
+        text='spec/AsmSched.tla: chunk_tasks as Chunks(len,k) (partition invariant for all len <= 64, k <= 16); multi_entries/'
+             'multi_blocks as one process per chunk and the symmetric vector kernels as one process per outer index with the '
+             'diag tests transcribed -- TLC explores every interleaving (<= 4 resp. <= 7 active processes) on banded patterns '
+             'from real knot vectors and checks disjoint write sets, every location written exactly once, a unique terminal '
+             'array, symmetric == full under B(J,I) = B(I,J)^T; racy variants as negative controls; the post-processing index '
+             'maps (lower-triangular + mirrored entries, BSR block transposition, blocked<->packed permutation) as bijections; '
+             'update histories. Every TLC-enumerated configuration is assembled with the real code and compared bitwise across '
+             'thread counts 1..16, pool sizes and repetitions, to rounding across flags/formats/layouts/subsets/updates.',
+        note='Real thread interleavings are not controlled: the design is proved race-free by TLC and the implementation is '
+             'bound to it through outcomes only (a race writing identical values is invisible). Quick tier uses shipped '
+             'assemblers; 1-D, non-square components, updatable inputs and on-demand bounding boxes need compiled forms (thorough).',
+        technique='TLA+ process-per-chunk / process-per-outer-index models, all interleavings explored by TLC (with racy negative controls) + outcome conformance of the real assembly across thread counts, formats, layouts, subsets',
+        design_ref='3 C08'),
+    'C17': dict(
+        text='spec/Approx.tla carries an exact rational reference (piecewise Cox-de Boor, Greville abscissae, collocation, mass and '
+             'weighted mass, moments, Marsden coefficients, pull-backs through identity/affine/bilinear maps) and TLC checks '
+             'BasisOK, MassOK, MomentOK, MarsdenOK, InSpaceOK, WeightedOK on every enumerated case; every case is replayed through '
+             'approx.interpolate (arrays and functions, scalar/vector/matrix data, custom nodes, geo=), approx.project_L2 '
+             '(Kronecker and CG path, physical vs pulled-back data), bspline.interpolate/project_L2.',
+        note='Tensor-product spaces only (the hierarchical path is covered indirectly by C03/C05, not by this check); degrees <= 4, '
+             '<= 6 dofs per direction; outside-data normal equations exact from the spec, solved in big-integer arithmetic by the '
+             'harness; CG early-stop clause only on well-conditioned maps.',
+        technique='TLA+ exact rational reference enumerated and cross-checked by TLC + replay of every case through the real interpolation/projection routines',
+        design_ref='3 C17'),
+    'C18': dict(
+        text='spec/TensorAlg.tla is a state machine: state = dense integer tensor value + code-shaped representation (canonical, '
+             'Tucker, ndarray, sum, product, Kronecker operator); 23 actions (add, sub, neg, every index expression with Python '
+             'slice semantics defined in the spec, squeeze, mode products, pad, ravel, join bases, conversions, orthogonalise, '
+             'operator algebra); invariant RepOK (expanding the representation gives the value) on all histories of length <= 2 '
+             'and simulated histories <= 8; pre-fix squeeze as negative control. Every history is replayed on the real classes '
+             'with exact equality after each step. spec/TensorAlgNum.tla chooses the inputs of the tolerance/rank clauses and '
+             'decides rank and generic position exactly.',
+        note='Compression/truncation tolerances, HOSVD orthonormality, ACA exactness and greedy error histories are numeric '
+             'predicates evaluated by the harness on spec-chosen inputs; orders <= 4, extents <= 4; one index list per '
+             'expression. Known finding: ACA early stop on non-generic exact-rank inputs.',
+        technique='TLA+ state machine over dense integer tensors with code-shaped representations (RepOK) explored/simulated by TLC + replay of every history on the real tensor classes',
+        design_ref='3 C18'),
 }
 
 NOT_BUILT = 'specification module not built yet (see DESIGN.md section 6); not claimed with a weaker technique'
